@@ -264,7 +264,10 @@ pub fn gen_pwcase(rng: &mut Rng, var: &Variant) -> PwCase {
     let mut src = Rng::derive(rng.next(), "c06.entries", 0);
     let mut rnd = |k: usize| src.bytes(k);
     let entries = make_entries(&mut Rec::off(), &params, &user_pw, &owner_pw, &mut rnd);
-    let (fields, _) = dict_fields(rng, var, &entries, p, em);
+    let (mut fields, _) = dict_fields(rng, var, &entries, p, em);
+    if var.v < 4 && rng.chance(1, 4) {
+        fields.encrypt_metadata = Some(false); // meaningless before V 4: must not influence anything
+    }
     PwCase { var: var.clone(), params, entries, fields, user_pw, owner_pw }
 }
 
